@@ -6,7 +6,8 @@ Seams taken (all pre-existing in the code, no repository hook):
   * pathlib.Path.rename / unlink / mkdir / replace, and the `shutil` object spikeglx references
   * NumPy's ndarray.tofile(fileobj) protocol: flush() before, seek(pos) after the C-level write
 Fault kinds: io_error (raise OSError instead of performing the event), kill (os._exit before
-the event), torn (perform a write, keep only a prefix of it, then os._exit).
+the event), torn (perform a write, keep only a prefix of it, then os._exit), interrupt (raise
+KeyboardInterrupt before the event), corrupt (perform a write, then flip one stored byte).
 """
 import builtins
 import errno
@@ -95,6 +96,11 @@ def event(op, path, can_error=True, path2=None):
         if kind == "kill":
             SIM.fired = {"kind": "kill", "at": k, "label": label}
             die(SIM.fired)
+        if kind == "interrupt":
+            # the operator's Ctrl-C / a cancelled job: a BaseException raised at this point; unlike a kill the
+            # system's own `finally` / `except BaseException` handlers run, unlike an I/O error `except Exception` ones do not
+            SIM.fired = {"kind": "interrupt", "at": k, "label": label}
+            raise KeyboardInterrupt("simulated interrupt at " + label)
         if kind == "corrupt":
             if op in ("write", "tofile"):
                 return "corrupt"
